@@ -65,13 +65,20 @@ def run_impl(pg, fam="int"):
         _c08.pollute_other_objects()
     except Exception:
         pass
-    if C.warm_decide({"g": pg, "fam": fam}, 4):
-        # query, edit the same object in place, query again (see common.warmup)
-        C.warmup(P, lambda: pag_to_mag(P), layers=("circle", "directed", "bidirected", "undirected"))
+    try:
+        if C.warm_decide({"g": pg, "fam": fam}, 4):
+            # query, edit the same object in place, query again (see common.warmup)
+            with C.time_limit(20):
+                C.warmup(P, lambda: pag_to_mag(P), layers=("circle", "directed", "bidirected", "undirected"))
+    except C.CallTimeout:
+        P = build_pag(pg, lab)
     corder = [(lab.inv(a), lab.inv(b)) for a, b in set(P.copy().circle_edges)]
     before = C.snapshot(P)
     try:
-        M = pag_to_mag(P)
+        with C.time_limit(20):
+            M = pag_to_mag(P)
+    except C.CallTimeout:
+        return {"res": "err:does-not-terminate(20s)", "corder": corder, "mutated": before != C.snapshot(P)}
     except Exception as e:
         return {"res": "err:" + type(e).__name__, "corder": corder, "mutated": before != C.snapshot(P)}
     after = C.snapshot(P)
